@@ -37,7 +37,7 @@ def register(R):
           'len(result) == kept_before(idx_elem)', 'idx_elem >= 0',
           'forall(lambda i: kept_before(i) + ite(masks[i], 1, 0) <= kept_before(idx_elem) and 0 <= kept_before(i), 0, idx_elem)',
           'forall(lambda i: implies(masks[i], result[kept_before(i)] is items[i]), 0, idx_elem)'])},
-      bounded='bounded_masks',
+      bounded='bounded_masks', witness=dict(masks='masks', n_items='len(items)'), replay='replay_apply_mask',
       note='filter mode: the masked sequence is exactly the sub-sequence of the rows of the slice (no row invented, dropped, duplicated or reordered)'))
   R.add(Contract(
       f'{TR}::apply_mask', P, variant='replace', types=dict(T, replace_false_with='int'), ret='list[obj]',
@@ -50,7 +50,7 @@ def register(R):
           'len(result) == idx_elem', 'idx_elem >= 0',
           'forall(lambda i: implies(masks[i], result[i] is items[i]), 0, idx_elem)',
           'forall(lambda i: implies(not masks[i], result[i] == replace_false_with), 0, idx_elem)'])},
-      bounded='bounded_masks',
+      bounded='bounded_masks', witness=dict(masks='masks', n_items='len(items)', replace='replace_false_with'), replay='replay_apply_mask',
       note='replace mode: positions are preserved, rows outside the slice hold the replacement value'))
 
   # ---- per-slice aggregation states -----------------------------------------------------------------------------------
